@@ -1,19 +1,19 @@
 PROPS["C18"] = P(
     "exploration",
     "every (bucket bits, max shard bits, shard bits) triple of {0,1,2,5,8,9,12}^3 with shard<=max (plus the VBuilder configurations with max=16), online and offline, "
-    "x 13 multiset classes (empty, single, tiny, 10^4 uniform, one shard, all-zero / all-ones high bits, duplicates, buckets holding exactly k*1024 / k*1024-1 / k*1024+1 pairs, skewed, "
+    "x 13 multiset classes (empty, single, tiny, 10^4 uniform (10^5 on selected triples), one shard, all-zero / all-ones high bits, duplicates, buckets holding exactly k*1024 / k*1024-1 / k*1024+1 pairs, skewed, "
     "lowest/highest signature of every shard and bucket) x signature types [u64;1],[u64;2] x value types u8,u64,usize,EmptyVal; each store is pushed, turned into a shard store, "
     "iterated borrowed twice and then consumed (other plans: abandoned borrowed iteration first, consuming only, borrowed then consuming), every iteration compared with the pushed Vec "
     "(number of shards, shard of every pair = top bits computed by shifting, per-shard multiset, union, shard_sizes vs model counts and vs yielded lengths, len). "
     "distinct_nontrivial = distinct (mode, bit triple, multiset class + plan, type combination) cells in which at least one pair was pushed",
     dict(builds=["DBG", "UBC"]),
-    dict(builds=["DBG", "UBC", "ASAN", "MIRI", "VG"], shards={"MIRI": 6, "VG": 4, "ASAN": 2, "DBG": 2, "UBC": 2}),
+    dict(builds=["DBG", "UBC", "ASAN", "MIRI"], shards={"MIRI": 6, "ASAN": 3, "DBG": 4, "UBC": 3}),
     hang="violation",
     level_text="Exploration: the real online and offline signature stores are driven through every bit-triple class (split / equal / aggregate iterator branches) with skewed, boundary and "
                "chunk-size-aligned multisets and all signature/value type combinations; each of three iterations is compared pair by pair with the pushed vector. Debug build (overflow, "
-               "debug assertions, std UB checks) and -Zub-checks release build; thorough adds ASan, Miri (online store only, small) and valgrind (offline and online, small). "
+               "debug assertions, std UB checks) and -Zub-checks release build; thorough adds ASan and Miri (online store only, small; the offline store needs real files). "
                "Right level because the property quantifies over all multisets and parameter triples and the oracle (the pushed vector) is total.",
     level_note="Trusted: the pushed vector, the shift-based shard model and the sort-based multiset comparison. Not covered: more than 12 shard/bucket bits (except max shard bits 16), "
                "more than 10^5 pairs per store, I/O failures of the temporary directory.",
-    technique="runtime monitoring: parameter-space enumeration plus randomized multisets vs the pushed vector as reference, under UB-checking/ASan/Miri/valgrind builds",
+    technique="runtime monitoring: parameter-space enumeration plus randomized multisets vs the pushed vector as reference, under UB-checking/ASan/Miri builds",
 )
